@@ -309,6 +309,9 @@ func (g *G) typedRowCount(env *TEnv) Expr {
 	if x, ok := g.bindingOf(env, TInt, "rowcount"); ok {
 		return x
 	}
+	if g.n("bigcount", 12) == 0 {
+		return &Num{Text: pickFrom(g, "bigcountval", []string{"10", "100", "1000", "0x10", "007"})}
+	}
 	return &Num{Text: fmt.Sprint(g.n("rowcount", 5))}
 }
 
